@@ -112,6 +112,7 @@ pub fn rule_pool(lang: LangId) -> Vec<RuleTxt> {
             r("let-var-same", "(let $x (var $x) ?e)", "?e"),
             r("app-swap", "(app (app ?f ?a) ?b)", "(app (app ?f ?b) ?a)"),
         ],
+        LangId::Pay => vec![r("neg-neg", "(neg (neg ?a))", "?a"), r("tag-drop", "(tag 1 $x ?a)", "?a")],
         LangId::Fp => vec![
             r("add-comm", "(add ?a ?b)", "(add ?b ?a)"),
             r("mul-comm", "(mul ?a ?b)", "(mul ?b ?a)"),
